@@ -374,6 +374,7 @@ func (d *Data) handleIndex(ctx *datastore.VersionedCtx, w http.ResponseWriter, r
 		idx := new(labels.Index)
 		if err := pb.Unmarshal(serialization, idx); err != nil {
 			server.BadRequest(w, r, err)
+			return
 		}
 		if idx.Label != label {
 			server.BadRequest(w, r, "serialized Index was for label %d yet was POSTed to label %d", idx.Label, label)
